@@ -24,16 +24,16 @@ func waitDur(ms, us int) time.Duration {
 // ---- scenario (JSON shapes shared with lean/Driver/FlowFam.lean) ----
 
 type LeafCfg struct {
-	Retryable bool   `json:"retryable"`
-	Budget    int    `json:"budget"`
-	Wait      int    `json:"wait"` // ms
+	Retryable bool `json:"retryable"`
+	Budget    int  `json:"budget"`
+	Wait      int  `json:"wait"` // ms
 	// WaitUs (harness only; the model's wait is Wait ms): microseconds added to the configured wait. The observed gap is
 	// judged against the full duration, so a wait that loses its sub-millisecond part on the way shows as a missing wait event.
-	WaitUs int `json:"waitUs,omitempty"`
-	Fb        string `json:"fb"`   // absent | pass | custom
-	PrepS     string `json:"prepS"`
-	ExecS     string `json:"execS"`
-	PostS     string `json:"postS"`
+	WaitUs int    `json:"waitUs,omitempty"`
+	Fb     string `json:"fb"` // absent | pass | custom
+	PrepS  string `json:"prepS"`
+	ExecS  string `json:"execS"`
+	PostS  string `json:"postS"`
 	// harness-only hints (ignored by the Lean side)
 	Impl  string `json:"impl,omitempty"`  // for direct nodes with fb=custom & retryable: "base" | "plain"
 	Build string `json:"build,omitempty"` // for function-style nodes: "option" | "builder" | "mixed"
@@ -43,7 +43,7 @@ type BatchCfg struct {
 	Budget  int    `json:"budget"`
 	Wait    int    `json:"wait"`
 	WaitUs  int    `json:"waitUs,omitempty"` // see LeafCfg.WaitUs
-	Fb      string `json:"fb"` // pass | custom
+	Fb      string `json:"fb"`               // pass | custom
 	Conc    int    `json:"conc"`
 	Stop    bool   `json:"stop"`
 	ExecS   string `json:"execS"` // res | any | absent
@@ -187,6 +187,9 @@ type runtimeEnv struct {
 	batchScr map[[2]int]*BatchScript
 	nodes    map[int]flyt.Node
 	rts      map[int]*nodeRT
+	// connectAs: for a node configured through chained builder setters, the builder the chain STARTED from (the node itself is
+	// what the last setter returned): the same node, and the one a flow's connections are made from
+	connectAs map[int]flyt.Node
 
 	mu       sync.Mutex
 	trace    []string
@@ -775,7 +778,7 @@ func (e *runtimeEnv) buildFuncNode(l *leafImpl, cfg *LeafCfg, wait time.Duration
 	fb := func(p any, err error) (any, error) { return l.fallback(p, err) }
 
 	var opts []any
-	type bstep func(b *flyt.NodeBuilder)
+	type bstep func(b *flyt.NodeBuilder) *flyt.NodeBuilder
 	var steps []bstep
 	add := func(i int, opt any, st bstep) {
 		useOpt := cfg.Build == "option" || (cfg.Build == "mixed" && i%2 == 0) || (cfg.Build == "mixed2" && i%2 == 1)
@@ -787,38 +790,38 @@ func (e *runtimeEnv) buildFuncNode(l *leafImpl, cfg *LeafCfg, wait time.Duration
 	}
 	reconf := (cfg.Budget+cfg.Wait+len(cfg.ExecS)+len(cfg.Fb))%3 == 0
 	if !reconf {
-		add(0, flyt.WithMaxRetries(cfg.Budget), func(b *flyt.NodeBuilder) { b.WithMaxRetries(cfg.Budget) })
-		add(1, flyt.WithWait(wait), func(b *flyt.NodeBuilder) { b.WithWait(wait) })
+		add(0, flyt.WithMaxRetries(cfg.Budget), func(b *flyt.NodeBuilder) *flyt.NodeBuilder { return b.WithMaxRetries(cfg.Budget) })
+		add(1, flyt.WithWait(wait), func(b *flyt.NodeBuilder) *flyt.NodeBuilder { return b.WithWait(wait) })
 	}
 	switch cfg.PrepS {
 	case "res":
-		add(2, flyt.WithPrepFunc(prepRes), func(b *flyt.NodeBuilder) { b.WithPrepFunc(prepRes) })
+		add(2, flyt.WithPrepFunc(prepRes), func(b *flyt.NodeBuilder) *flyt.NodeBuilder { return b.WithPrepFunc(prepRes) })
 	case "any":
-		add(2, flyt.WithPrepFuncAny(prepAny), func(b *flyt.NodeBuilder) { b.WithPrepFuncAny(prepAny) })
+		add(2, flyt.WithPrepFuncAny(prepAny), func(b *flyt.NodeBuilder) *flyt.NodeBuilder { return b.WithPrepFuncAny(prepAny) })
 	}
 	switch cfg.ExecS {
 	case "res":
-		add(3, flyt.WithExecFunc(execRes), func(b *flyt.NodeBuilder) { b.WithExecFunc(execRes) })
+		add(3, flyt.WithExecFunc(execRes), func(b *flyt.NodeBuilder) *flyt.NodeBuilder { return b.WithExecFunc(execRes) })
 	case "any":
-		add(3, flyt.WithExecFuncAny(execAny), func(b *flyt.NodeBuilder) { b.WithExecFuncAny(execAny) })
+		add(3, flyt.WithExecFuncAny(execAny), func(b *flyt.NodeBuilder) *flyt.NodeBuilder { return b.WithExecFuncAny(execAny) })
 	}
 	switch cfg.PostS {
 	case "res":
-		add(4, flyt.WithPostFunc(postRes), func(b *flyt.NodeBuilder) { b.WithPostFunc(postRes) })
+		add(4, flyt.WithPostFunc(postRes), func(b *flyt.NodeBuilder) *flyt.NodeBuilder { return b.WithPostFunc(postRes) })
 	case "any":
-		add(4, flyt.WithPostFuncAny(postAny), func(b *flyt.NodeBuilder) { b.WithPostFuncAny(postAny) })
+		add(4, flyt.WithPostFuncAny(postAny), func(b *flyt.NodeBuilder) *flyt.NodeBuilder { return b.WithPostFuncAny(postAny) })
 	}
 	if cfg.Fb == "custom" {
-		add(5, flyt.WithExecFallbackFunc(fb), func(b *flyt.NodeBuilder) { b.WithExecFallbackFunc(fb) })
+		add(5, flyt.WithExecFallbackFunc(fb), func(b *flyt.NodeBuilder) *flyt.NodeBuilder { return b.WithExecFallbackFunc(fb) })
 	}
 	// batch settings on a node that is NOT a batch node (NewNode, not NewBatchNode) configure nothing the run of a
 	// single node looks at: a third of the function-style leaves carry them (which, and in which form, is a function
 	// of the node id and its configuration so that the scenario stays deterministic)
 	if id := l.rt0.id + cfg.Budget + cfg.Wait + len(cfg.PrepS) + 2*len(cfg.PostS); id%3 == 1 {
 		conc, cont := 1+id%4, id%2 == 0
-		add(6+id%2, flyt.WithBatchConcurrency(conc), func(b *flyt.NodeBuilder) { b.WithBatchConcurrency(conc) })
+		add(6+id%2, flyt.WithBatchConcurrency(conc), func(b *flyt.NodeBuilder) *flyt.NodeBuilder { return b.WithBatchConcurrency(conc) })
 		if id%5 != 0 {
-			add(7+id%2, flyt.WithBatchErrorHandling(cont), func(b *flyt.NodeBuilder) { b.WithBatchErrorHandling(cont) })
+			add(7+id%2, flyt.WithBatchErrorHandling(cont), func(b *flyt.NodeBuilder) *flyt.NodeBuilder { return b.WithBatchErrorHandling(cont) })
 		}
 	}
 	// a third of the function-style nodes are RE-configured: built with decoy retry settings, the getters read (whatever a
@@ -828,20 +831,32 @@ func (e *runtimeEnv) buildFuncNode(l *leafImpl, cfg *LeafCfg, wait time.Duration
 		decoy := []any{flyt.WithMaxRetries(cfg.Budget + 2), flyt.WithWait(0)} // no wait at all: a stale wait would be too SHORT
 		b := flyt.NewNode(append(decoy, opts...)...)
 		_, _ = b.GetMaxRetries(), b.GetWait()
+		b0 := b
 		for _, st := range steps {
-			st(b)
+			b = st(b)
 		}
+		e.setConnectAs(l.rt0.id, b0)
 		_, _ = b.GetMaxRetries(), b.GetWait()
 		flyt.WithMaxRetries(cfg.Budget)(b.BaseNode)
 		_ = b.GetWait()
 		flyt.WithWait(wait)(b.BaseNode)
 		return b
 	}
+	// fluent style: the node is what the LAST setter returned (flyt.NewNode(..).WithX(..).WithY(..)); the builder the chain
+	// started from is the same node, and it is the one the flow's connections are made from (connectAs)
 	b := flyt.NewNode(opts...)
+	e.setConnectAs(l.rt0.id, b)
 	for _, st := range steps {
-		st(b)
+		b = st(b)
 	}
 	return b
+}
+
+func (e *runtimeEnv) setConnectAs(id int, n flyt.Node) {
+	if e.connectAs == nil {
+		e.connectAs = map[int]flyt.Node{}
+	}
+	e.connectAs[id] = n
 }
 
 // ---- batch nodes ----
@@ -1347,7 +1362,11 @@ func (e *runtimeEnv) connect(f *flyt.Flow, src int, action string, dst *int) {
 	if dst != nil {
 		to = e.nodes[*dst]
 	}
-	f.Connect(e.nodes[src], flyt.Action(action), to)
+	from := e.nodes[src]
+	if alt, ok := e.connectAs[src]; ok {
+		from = alt
+	}
+	f.Connect(from, flyt.Action(action), to)
 }
 
 // makeCtx creates the run's context according to the scenario's kind
